@@ -220,7 +220,7 @@ func (c *cScen) round(ops []cOp, mode int) bool {
 	default:
 		stable := func() {
 			last, same := "?", 0
-			patient(2*time.Second, profiled(func() bool {
+			if !patient(2*time.Second, profiled(func() bool {
 				sig := scenarioSignature(c.label)
 				if sig == last {
 					same++
@@ -228,7 +228,9 @@ func (c *cScen) round(ops []cOp, mode int) bool {
 					last, same = sig, 0
 				}
 				return same >= 2
-			}))
+			})) {
+				atomic.AddInt64(&parkUnstable, 1) // only how well the interleaving was pinned, never a verdict
+			}
 		}
 		gocql.VerifPoolMapLock(c.s)
 		for _, op := range ops {
@@ -280,9 +282,19 @@ func scenarioSignature(label string) string {
 	return strings.Join(sig, ",")
 }
 
+// parkUnstable counts lock-parked rounds whose callers were not seen standing still within 2 s; slowestC is the longest
+// kind-C scenario in milliseconds (diagnostics in stats.json).
+var parkUnstable, slowestC int64
+
 func runPipeC(label string, cseed uint64) (obsLine string) {
 	t0 := time.Now()
 	withLabel(label, func() { obsLine = runPipeCLabelled(label, cseed) })
+	for {
+		ms, old := time.Since(t0).Milliseconds(), atomic.LoadInt64(&slowestC)
+		if ms <= old || atomic.CompareAndSwapInt64(&slowestC, old, ms) {
+			break
+		}
+	}
 	if os.Getenv("VERIF_C17_TIMING") != "" && time.Since(t0) > time.Second {
 		fmt.Fprintf(os.Stderr, "c17 slow kind C scenario %s: %.1fs %s\n", label, time.Since(t0).Seconds(), obsLine)
 	}
